@@ -51,6 +51,15 @@ def mask_candidates(strings):
 _TAB_CACHE = {}
 
 
+def S(s):
+    """a str for the driver: itself (-> #hex) when Latin-1, otherwise the list of its code points"""
+    try:
+        s.encode("latin-1")
+        return s
+    except UnicodeEncodeError:
+        return [ord(ch) for ch in s]
+
+
 def tables(strings):
     """inet_pton / inet_ntop tables for every argument the model can ask for on these inputs
     (closed under ntop and under masking with the masks that occur)"""
@@ -76,7 +85,7 @@ def tables(strings):
                     if bb not in nt:
                         nt[bb] = ntop6(bb)
                         work.append(nt[bb])
-    res = ([[k, v[0], v[1]] for k, v in sorted(pt.items())], [[k, v] for k, v in sorted(nt.items())])
+    res = ([[S(k), v[0], v[1]] for k, v in sorted(pt.items())], [[k, v] for k, v in sorted(nt.items())])
     if len(_TAB_CACHE) > 20000:
         _TAB_CACHE.clear()
     _TAB_CACHE[key] = res
@@ -196,6 +205,41 @@ def rc(kind, name="ValueError"):
     return (1, name)
 
 
+# decimal digits of other scripts (str.isdigit / int() / \\d accept them; [0-9] and inet_pton do not), and
+# characters that isdigit accepts but int() rejects
+UDIGIT_ZERO = {"arabic-indic": 0x0660, "ext-arabic-indic": 0x06F0, "devanagari": 0x0966, "bengali": 0x09E6,
+               "thai": 0x0E50, "fullwidth": 0xFF10, "math-bold": 0x1D7CE}
+SUPERSCRIPT = "\u2070\u00b9\u00b2\u00b3\u2074\u2075\u2076\u2077\u2078\u2079"
+CIRCLED = "\u24ea\u2460\u2461\u2462\u2463\u2464\u2465\u2466\u2467\u2468"
+SCRIPTS = list(UDIGIT_ZERO) + ["superscript", "circled"]
+
+
+def udigit(script, d):
+    if script == "superscript":
+        return SUPERSCRIPT[d]
+    if script == "circled":
+        return CIRCLED[d]
+    return chr(UDIGIT_ZERO[script] + d)
+
+
+def udigit_variants(text):
+    """ONE ASCII digit, or ONE whole run of digits (octet, mask, digits of a hex group), in another script"""
+    import re
+    out = []
+    for script in SCRIPTS:
+        for m in re.finditer("[0-9]+", text):
+            a, b = m.start(), m.end()
+            out.append(text[:a] + "".join(udigit(script, int(ch)) for ch in text[a:b]) + text[b:])
+            if b - a > 1:
+                out.append(text[:a] + udigit(script, int(text[a])) + text[a + 1:])
+    seen, res = set(), []
+    for x in out:
+        if x not in seen:
+            seen.add(x)
+            res.append(x)
+    return res
+
+
 class C16(Check):
     ident = "C16"
     technique = "Coq proofs over hand-written recognisers/arithmetic + extracted-model correspondence with libc oracles"
@@ -263,6 +307,21 @@ class C16(Check):
                               "::ffff:1.2.3.4\x00", "1.2.3.4\x00", "", "/", "::/", "/64", "::ffff:1.2.3.4/120",
                               "::ffff:01.2.3.4", "::ffff:1.2.3.256", "1.2.3.4/8/8", "1:2:3:4:5:6:7:8:9", ":::", "1::2::3"):
                         yield self.mk(fam, fn, raise_, s, "::1/64", tag="witness")
+        # non-ASCII decimal digits in every numeric position: malformed for every module
+        ub = {"v4": ["192.168.0.1/24", "10.0.0.255/8", "1.2.3.4"],
+              "ip": ["192.168.0.1/24", "1.2.3.4", "2001:db8::1/64", "::ffff:1.2.3.4", "::ffff:1.2.3.4/120"],
+              "v6": ["2001:db8::1/64", "::1/128", "::ffff:1.2.3.4/96", "1:2:3:4:5:6:7:8"],
+              "mac": ["00:1A:2b:03:04:05", "0-1-2-3-4-5"]}
+        for fam, bases in ub.items():
+            for base in bases:
+                vs = udigit_variants(base)
+                if q:
+                    vs = vs[::3] + [v for v in vs if "/" in base and v.split("/")[0] == base.split("/")[0]][::2]
+                for v in vs:
+                    for fn in FNS[fam]:
+                        for raise_ in (False, True):
+                            mal = (1, "ValueError") if raise_ else (0, v)
+                            yield self.mk(fam, fn, raise_, v, base, ref1=mal, tag="unicode-digits")
         # ================= IPv4 (and the generic module on IPv4 text) =================
         addrs = [[0, 0, 0, 0], [255, 255, 255, 255], [192, 168, 0, 1], [10, 0, 0, 255], [127, 128, 199, 200],
                  [1, 9, 10, 99], [100, 249, 250, 254], [128, 0, 0, 0], [0, 0, 0, 1], [172, 16, 254, 3]]
@@ -438,7 +497,7 @@ class C16(Check):
 
     @staticmethod
     def _ref(r):
-        return [] if r is None else [[r[0], r[1]]]
+        return [] if r is None else [[r[0], S(r[1]) if r[0] == 0 else r[1]]]
 
     def line(self, c, obs):
         strs = [c["s1"], c["s2"]]
@@ -452,12 +511,17 @@ class C16(Check):
             pt, nt = tables(strs)
         else:
             pt, nt = [], []
-        return sx([FAM[c["fam"]], FN[c["fn"]], c["raise"], c["s1"], c["s2"], c["mc"], c["md"], pt, nt,
+        return sx([FAM[c["fam"]], FN[c["fn"]], c["raise"], S(c["s1"]), S(c["s2"]), c["mc"], c["md"], pt, nt,
                    self._ref(c["ref1"]), self._ref(c["ref2"]), c.get("lenient", 0), c.get("ve_esc", 0),
-                   [[o[0], o[1]] for o in obs]])
+                   [[o[0], S(o[1]) if o[0] == 0 else o[1]] for o in obs]])
 
     def canon(self, obs):
-        return [[o[0], o[1].encode("latin-1")] for o in obs]
+        def enc(t):
+            try:
+                return t.encode("latin-1")
+            except UnicodeEncodeError:
+                return [ord(ch) for ch in t]
+        return [[o[0], enc(o[1])] for o in obs]
 
     def nontrivial(self, c, obs):
         if c["s1"] != c["s2"] and (obs[0][0] == 0 or obs[1][0] == 0) and \
